@@ -48,27 +48,7 @@ func runC18(c *kit.Ctx) {
 
 	// ---- R1 ---------------------------------------------------------------
 	c.StartRule("R1", "counter and read deadline share one lock and two helpers", 8)
-	marshal := p.Func("region", "client", "MarshalJSON")
-	for _, a := range p.FieldAccesses(inFlight) {
-		if kit.FreshObject(a.Instr) {
-			continue
-		}
-		okFn := a.Fn == up || a.Fn == down || (a.Fn == marshal && !a.Write)
-		held := le.At(a.Instr).HoldsField(inFlightM, a.Write)
-		c.Check(okFn && held, a.Fn, "counter-"+a.Kind, posOf(a.Instr), "in a helper, with inFlightM held", "the in-flight counter is accessed outside inFlightUp/inFlightDown or without inFlightM: it can drift from the armed deadline")
-	}
-	var deadlineCalls []ssa.CallInstruction
-	for _, fn := range p.Funcs {
-		for _, call := range kit.Calls(fn, srd) {
-			if !isLoadOfField(call.Common().Value, connF) {
-				continue
-			}
-			deadlineCalls = append(deadlineCalls, call)
-			okFn := fn == up || fn == down
-			held := le.At(call).HoldsField(inFlightM, true)
-			c.Check(okFn && held, fn, "set-read-deadline", call.Pos(), "in a helper, with inFlightM held", "SetReadDeadline on the connection outside inFlightUp/inFlightDown or without inFlightM")
-		}
-	}
+	counterAndDeadlineUnderOneLock(c, le)
 	for _, fn := range p.Funcs {
 		for _, call := range kit.Calls(fn, "(net.Conn).SetDeadline") {
 			c.Bad(fn, "set-deadline", call.Pos(), "SetDeadline arms the read deadline as well, outside the counter's helpers: nothing clears it (the hello path only resets the write deadline), so an idle connection is torn down when it expires", "")
@@ -354,4 +334,40 @@ func nonZeroDeadlineOnlyWhenPositive(call ssa.CallInstruction, counter *types.Va
 		}
 	}
 	return positiveAt(call.Block())
+}
+
+// counterAndDeadlineUnderOneLock: the in-flight counter and the connection's read deadline are only
+// touched in inFlightUp/inFlightDown with inFlightM held (so the deadline is armed exactly while
+// requests are outstanding). Shared by C18.R1 and C03.R6 (failure by read timeout).
+func counterAndDeadlineUnderOneLock(c *kit.Ctx, le *kit.LockEnv) []ssa.CallInstruction {
+	p := c.P
+	up, down := p.Func("region", "client", "inFlightUp"), p.Func("region", "client", "inFlightDown")
+	inFlight, inFlightM, connF := p.Field("region", "client", "inFlight"), p.Field("region", "client", "inFlightM"), p.Field("region", "client", "conn")
+	if up == nil || down == nil || inFlight == nil || inFlightM == nil || connF == nil {
+		c.Unk(nil, "counter-helpers", token.NoPos, "inFlightUp/inFlightDown or the fields inFlight/inFlightM/conn of region.client not found")
+		return nil
+	}
+	const srd = "(net.Conn).SetReadDeadline"
+	marshal := p.Func("region", "client", "MarshalJSON")
+	for _, a := range p.FieldAccesses(inFlight) {
+		if kit.FreshObject(a.Instr) {
+			continue
+		}
+		okFn := a.Fn == up || a.Fn == down || (a.Fn == marshal && !a.Write)
+		held := le.At(a.Instr).HoldsField(inFlightM, a.Write)
+		c.Check(okFn && held, a.Fn, "counter-"+a.Kind, posOf(a.Instr), "in a helper, with inFlightM held", "the in-flight counter is accessed outside inFlightUp/inFlightDown or without inFlightM: it can drift from the armed deadline")
+	}
+	var deadlineCalls []ssa.CallInstruction
+	for _, fn := range p.Funcs {
+		for _, call := range kit.Calls(fn, srd) {
+			if !isLoadOfField(call.Common().Value, connF) {
+				continue
+			}
+			deadlineCalls = append(deadlineCalls, call)
+			okFn := fn == up || fn == down
+			held := le.At(call).HoldsField(inFlightM, true)
+			c.Check(okFn && held, fn, "set-read-deadline", call.Pos(), "in a helper, with inFlightM held", "SetReadDeadline on the connection outside inFlightUp/inFlightDown or without inFlightM")
+		}
+	}
+	return deadlineCalls
 }
